@@ -371,11 +371,11 @@ CHECKS["C14"] = dict(
           "transport with exact byte accounting: per call the captured request is decoded independently (selector + argument tuple), exactly one handler invocation of the selected method with equal argument value trees and "
           "the bound passthrough values, Invoke returns the handler's value, the reply is exactly one encoding of it, request and reply fully consumed; unbound methods: InvalidInterfaceMethod, no handler, no reply byte. "
           "case (2) = raw requests: every bound selector +-1, bit 31/32 flipped, widened / narrowed, extreme and random selectors crossed with argument tuples of every method, plus field-directed corruptions and every "
-          "truncation of valid requests: the reference decoder says whether a handler may run. case (3) = 1..12 calls from a client thread to a server thread over a socketpair through FdReader/FdWriter. One call in eight runs "
+          "truncation of valid requests: the reference decoder says whether a handler may run. case (3) = 1..12 calls from a client thread to a server thread over a socketpair through FdReader/FdWriter. case (4) = 1..10 successive calls on one connection through the shipped StreamReader/StreamWriter over queue streambufs. One call in eight runs "
           "with only 0..11 bytes of room in the reply direction: a dispatcher that reports success must have produced one complete reply. A hand-written interface has handlers returning references into their decoded arguments; another one relays: its handlers invoke the same method on a peer node from inside the handler "
           "(nested dispatch of one method on one thread, depth 0..5) and read their own arguments afterwards."),
     floor={"quick": 3000, "thorough": 100000},
-    require_counters=["c14_calls", "c14_bound_calls_checked", "c14_unbound_calls_checked", "c14_raw_requests_valid", "c14_raw_requests_invalid", "c14_fd_transport_calls", "c14_call_sequences", "c14_reply_write_failures_injected", "c14_reference_returning_handler_calls", "c14_reentrant_dispatch_calls", "c14_interfaces_with_table_arguments_(no_fd_transport)"],
+    require_counters=["c14_calls", "c14_bound_calls_checked", "c14_unbound_calls_checked", "c14_raw_requests_valid", "c14_raw_requests_invalid", "c14_fd_transport_calls", "c14_call_sequences", "c14_reply_write_failures_injected", "c14_reference_returning_handler_calls", "c14_reentrant_dispatch_calls", "c14_interfaces_with_table_arguments_(no_fd_transport)", "c14_stream_transport_calls"],
     technique="handler-invocation log + byte-accounting loopback transport + reference decoding of requests/replies over generated interfaces, under ASan/UBSan",
     level_text="exploration over generated programs: each generated interface is driven by sampled call sequences, a selector/argument cross product and the hostile-request catalogue; every call is decided exactly from the handler log, the byte counters and an independent decode of both directions.",
     level_note="the loopback transport is the harness' own (documented Reader/Writer interface); the out-parameter overload of Invoke (no return statement) is not used",
